@@ -331,7 +331,35 @@ def run_case(case, ctx):
     return {"sig": ["run", route, case["mode"], case["setting"], len(writes)], "labels": [route, case["mode"], f"writes={min(len(writes), 20)}"]}
 
 
+# writer runs whose write sequence has a shape the random cases seldom produce; one per shard, every run
+SPECIAL = [
+    # a 2D line whose 89 header words are all constant, 'thorough' detection: the count / table patches empty the header
+    {"route": "2d", "mode": "thorough", "stride": 2000, "pl": 0, "values": {"kind": "gauss", "vseed": 3}, "setting": [4, [1, 16, 512]],
+     "src": {"geom": "2d", "fmt": 5, "ext": 0, "dt_us": 4000, "delay": 0, "values": {"kind": "gauss", "vseed": 3}, "text_seed": 1,
+             "bin": {}, "ns": 9, "n_tr": 17, "variant": "zero", "line": [1, 1, 1], "fields": {}}},
+    # the same for a blockshape whose trace group is 4 wide
+    {"route": "2d", "mode": "thorough", "stride": 2000, "pl": 1, "values": {"kind": "gauss", "vseed": 4}, "setting": [8, [1, 4, 1024]],
+     "src": {"geom": "2d", "fmt": 1, "ext": 0, "dt_us": 2000, "delay": 100, "values": {"kind": "gauss", "vseed": 4}, "text_seed": 2,
+             "bin": {}, "ns": 30, "n_tr": 9, "variant": "zero", "line": [1, 1, 1], "fields": {}}},
+    # a regular cube with constant and varying words, 'thorough' and 'exhaustive'
+    {"route": "segy", "mode": "thorough", "stride": 2500, "pl": 0, "values": {"kind": "gauss", "vseed": 5}, "setting": [4, [4, 4, 512]],
+     "src": {"geom": "regular", "fmt": 5, "ext": 0, "dt_us": 4000, "delay": 0, "values": {"kind": "gauss", "vseed": 5}, "text_seed": 3,
+             "bin": {}, "ns": 9, "n_il": 6, "n_xl": 7, "il": [1, 1], "xl": [10, 2],
+             "fields": {"9": {"kind": "const", "seed": 1}, "73": {"kind": "vary", "seed": 2}, "77": {"kind": "vary", "seed": 3}}}},
+    {"route": "segy", "mode": "exhaustive", "stride": 2500, "pl": 1, "values": {"kind": "gauss", "vseed": 6}, "setting": [2, [64, 64, 4]],
+     "src": {"geom": "regular", "fmt": 1, "ext": 1, "dt_us": 2000, "delay": -40, "values": {"kind": "gauss", "vseed": 6}, "text_seed": 4,
+             "bin": {}, "ns": 9, "n_il": 5, "n_xl": 4, "il": [3, 2], "xl": [7, 1], "fields": {"21": {"kind": "vary", "seed": 4}}}},
+]
+
+
 def shard_main(ctx):
+    if ctx.shard < len(SPECIAL):
+        case = dict(SPECIAL[ctx.shard], check="special")
+        try:
+            ctx.evaluate(case, run_case)
+        except Violation as v:
+            ctx.failures.append({"kind": v.kind, "detail": v.detail, "case": case})
+            return
     ctx.explore("partial", cases(), run_case, ctx.n(4, 60), shrink_s=20)
 
 
